@@ -45,3 +45,17 @@ def search(prefix):
                 return bad[:20]
         return None
     return f
+
+
+UNSOUND = r"UNSOUND-ACCEPT|TWOSTAGE-KEY-UNBOUND|TWOSTAGE-UNSOUND|HISTORY-DEPENDENT"
+
+
+def validation_gate(ctx):
+    """The end-to-end theorems (agreement_model, validity_model, decision_wellformed) assume that every delivered
+    message satisfies MsgValid; C05.accepted_message_meets_consensus_hypothesis derives that from the validator
+    model, so the safety properties also rest on the validator correspondence: both validation paths (one-shot and
+    partial -> completion -> full, warm caches) are replayed here and an unsound acceptance on the implementation is
+    a violation of the consensus property with that message as the failing input."""
+    worlds = "400" if ctx.tier == "thorough" else "40"
+    return ctx.correspond("h_validate", "Validate", tag="validate", nontrivial=r"^(v|t|cv|h) ",
+                          env={"VERIF_VALIDATE_MODE": "", "VERIF_VALIDATE_WORLDS": worlds}, oracle_filter=UNSOUND)
